@@ -27,7 +27,7 @@ structure Pos where
 structure Val (V : Type) where
   variant : Nat
   fields : List V
-  deriving Repr
+  deriving Repr, DecidableEq
 
 /-! ### Decimal rendering (what `format_ident!("_{}", index)` does to the index) -/
 
